@@ -21,6 +21,7 @@ DECIDES = (
     "compatible signatures and every discretize includes both end parameters (C16.INTERFACE)."
     " 'parameter not given' is decided with 'is None', never by truth value, so 0 is a parameter (C16.NONE-TESTS); nothing computed from movable coordinates is memoised (C16.NO-MEMO)."
     ' get_length samples both end parameters and every knot strictly between them, in the direction of travel (abstract run, part of C16.KNOT-DEPENDENCE); every get_closest_param implementation depends on self.bounds (C16.BOUNDS-RESPECTED); no parameter range starts at the literal 0 in methods that use self.bounds (C16.RANGE-START).'
+    " Queries do not write into views of the curve's own array (C16.QUERIES-READ-ONLY); functions kept in interpolators read only fixed configuration through self (C16.DEEP-COPY); the circle's normal is used normalised (C16.UNIT-AXIS)."
 )
 NOT_DECIDED = "additivity of lengths, optimality of the closest parameter, interpolation accuracy (numerics)."
 ASSUMPTIONS = ["np.linspace(a, b, num=n) includes both end points unless endpoint=False is passed"]
